@@ -44,14 +44,14 @@ PROPS = {
                      "Grol.Obj.C12.equals_trans", "Grol.Obj.C12.cmp_congr", "Grol.Obj.C12.min_max",
                      "Grol.Obj.C12.legacy_int_float_not_transitive", "Grol.Obj.cmpI_PW", "Grol.Obj.cmp_eq", "Grol.Obj.cmpIntFloat_eq"],
         "suites": ["cmp"],
-        "rule": "cmp suite: a curated universe of ~150 values (ints around +-2^53, 2^63-2^10.., min/max int64; floats -0, +0, three NaN patterns, "
+        "rule": "cmp suite: a curated universe of 127 values (ints around +-2^53, 2^63-2^10.., min/max int64; floats -0, +0, three NaN patterns, "
                 "+-Inf, 2^53, 2^53+2, +-2^63, subnormals, 0.1, x.5 near 2^52; nil, booleans, strings incl. empty/NUL/non-UTF8, errors, "
                 "functions, extensions, quotes, registers, RETURN/MACRO objects (panic branches), empty/equal-length/nested/large arrays and maps) "
                 "plus 40 (quick) / 150 (thorough) seeded random nested values. V lines: the value evaluated from its grol source renders "
                 "like the value built through the object API. P lines: every unordered pair of the universe (and sampled pairs with "
                 "random values): object.Cmp both ways and on itself, object.Equals both ways and against an independently built copy, "
                 "and `< <= > >= == !=` both ways plus min/max evaluated from grol source. T lines: triples (quick: a quarter of all "
-                "numeric triples + 60k random triples; thorough: all ~3.4M triples of the universe + 300k random) with Cmp/Equals on "
+                "numeric triples + 60k random triples + all triples inside every window of 4 neighbours in the implementation's own order; thorough: all ~2.1M triples of the universe + 300k random + windows) with Cmp/Equals on "
                 "(a,b),(b,c),(a,c). The driver recomputes everything with the model and evaluates the order axioms on the "
                 "implementation's results. non-trivial = all operands are data values (no RETURN/MACRO object).",
         "trusted_base": COMMON_TB + ["modelled: object/object.go Cmp, cmpIntFloat, Equals, TypeEqual, IsIntType, areIntFloat, Value (registers), "
